@@ -18,7 +18,9 @@ From KM Require Import Base.Bytes Model.Tokens.
 Import ListNotations.
 Open Scope Z_scope.
 
-Record client := { cl_id : bs; cl_secret : bs }.
+(* OpenIDConnectClientConfig: client_id, client_secret, allow_client_chose_audiences (may this client
+   name, in the authorization request's "audience" parameter, an extra audience for the ACCESS token) *)
+Record client := { cl_id : bs; cl_secret : bs; cl_allow_aud : bool }.
 
 Record idp := { srv : server; clients : list client }.
 
@@ -133,8 +135,10 @@ Record areq := {
   ar_redirect_ok : bool;     (* CanRedirectToURL (C13) *)
   ar_challenge : bs;
   ar_method : bs;
-  ar_audience : bs;
-  ar_audience_ok : bool;     (* RequestedAudienceIsAllowed && CorsOriginAllowed *)
+  ar_audience : bs;          (* r.Form.Get("audience"): the FIRST value sent, [] when absent *)
+  ar_audience_ok : bool;     (* CorsOriginAllowed(audience): an https URL whose host is under one of the
+                                client's allowed_redirect_domains (C13); RequestedAudienceIsAllowed is
+                                the client's own flag cl_allow_aud *)
   ar_nonce : bs;
   ar_jti : bs }.             (* genRandomString() *)
 
@@ -153,16 +157,23 @@ Definition authorize (i : idp) (now : Z) (user : bs) (r : areq) : option token :
   else if negb (ar_scope_openid r) then None
   else match find_client (ar_client r) (clients i) with
   | None => None
-  | Some _ =>
+  | Some c =>
     if negb (ar_redirect_ok r) then None
     else if nonempty (ar_challenge r) && nonempty (ar_method r) && negb (bs_eqb (ar_method r) m_S256) then None
     else if nonempty (ar_challenge r) && negb (can_seal (srv i)) then None      (* 500: no RSA key to wrap for *)
-    else if nonempty (ar_audience r) && negb (ar_audience_ok r) then None
+    else if nonempty (ar_audience r) && negb (cl_allow_aud c && ar_audience_ok r) then None
     else if (Z.of_nat (length (ar_nonce r)) <? 6) && nonempty (ar_nonce r) then None
     else Some (p_code (srv i) now (ar_client r) user (ar_scope r) (ar_redirect r) (ar_nonce r) (ar_jti r)
                       (ar_challenge r) (ar_method r)
                       (if nonempty (ar_audience r) then [ar_audience r] else []))
   end.
+
+(* the same authorization request with another audience parameter (and the verdict on it) *)
+Definition with_audience (r : areq) (aud : bs) (ok : bool) : areq :=
+  {| ar_method_ok := ar_method_ok r; ar_response_type := ar_response_type r; ar_client := ar_client r;
+     ar_scope := ar_scope r; ar_scope_openid := ar_scope_openid r; ar_redirect := ar_redirect r;
+     ar_redirect_ok := ar_redirect_ok r; ar_challenge := ar_challenge r; ar_method := ar_method r;
+     ar_audience := aud; ar_audience_ok := ok; ar_nonce := ar_nonce r; ar_jti := ar_jti r |}.
 
 (* ---------------------------------------------------------------- token endpoint *)
 
@@ -233,6 +244,13 @@ Definition token_endpoint_gen (lax : bool) (i : idp) (now : Z) (r : treq) : tres
   end.
 
 Definition token_endpoint : idp -> Z -> treq -> tresult := token_endpoint_gen false.
+
+(* NOT the code: an ID token whose audience list also takes the code's access_audience, i.e. the
+   audience the client chose for the ACCESS token (refuted in Props/C12.v: the ID token then names a
+   second party next to the client) *)
+Definition p_id_widened (st : server) (now : Z) (client : bs) (k : codejwt) : token :=
+  sign st (enc_id {| i_iss := s_issuer st; i_sub := c_username k; i_aud := client :: c_access_aud k;
+                     i_exp := c_auth_exp k; i_iat := unix now; i_nonce := c_nonce k |}).
 
 (* ---------------------------------------------------------------- histories *)
 
